@@ -1493,6 +1493,13 @@ fn main() {
         for (name, bin) in fixture_projects() {
             run_fixture(&mut cx, &name, &bin);
         }
+        // fixed not-well-formed containers (outcome impl = model): output beyond 4096 bytes in one chunk (13-bit
+        // offsets), a chunk of 8 tokens followed by one stray byte (was read as a flag byte before the D16 fix),
+        // offset before the start, truncated copy token, bad chunk signature, short raw chunk
+        for h in ["0105b00661ff0f1280", "0107b00e61ff0f17801780", "0108b00090253955f035eac38f", "0109b08061626364656667f66f01b00078",
+                  "0103b0ed0100", "0101b0ffeb", "01010069", "0101300061", "0103b002", "0103", "02"] {
+            run_malformed(&mut cx, &unhex(h), "corpus");
+        }
     }
 
     // the generated streams are spread over worker threads, each with its own driver and its own PRNG
